@@ -13,3 +13,6 @@ open Lungo.C03
 #print axioms run_append
 #print axioms all_or_nothing
 #print axioms nothing_without_commit
+#print axioms fresh_good
+#print axioms reachable_snapshot_immutable
+#print axioms reachable_all_or_nothing
